@@ -487,9 +487,8 @@ CaseVec(t, cseq, np, nc, table, j) ==
       picks == {firstDisc(x) : x \in others} \ {0}
       extra == (((Seed % 1000) * 31 + Len(rt) * 7 + j) % nc) + 1
       \* where the reference evaluation cannot tell t from some other grouping (operands without a
-      \* reference value: `$`, containers, match), two more assignments for the implementation to try
-      more == IF \E x \in others : fd[x] = 0
-              THEN {((extra + (nc \div 3)) % nc) + 1, ((extra + 2 * (nc \div 3)) % nc) + 1} ELSE {}
+      \* reference value: `$`, containers, match), one more assignment for the implementation to try
+      more == IF \E x \in others : fd[x] = 0 THEN {((extra + (nc \div 2)) % nc) + 1} ELSE {}
       runs == SetToSeq(picks \cup {extra} \cup more)
   IN [text |-> Texts(rt),
       full |-> Texts(FullParen(t)),
